@@ -76,6 +76,9 @@ def run(ctx):
     ctx.ob(len(errs) == 1 and guarded_any(ka, errs[0].bb, [r'^\(self\.ping_timeout_timepoint@Some\.0 <= context\.current_time\)$']) and guarded_any(ka, errs[0].bb, [r'^self\.ping_timeout_timepoint is Some$']),
            'the connection is failed exactly when the ping deadline has been reached', 'deadline|compare', loc=ka.loc())
 
+    rd = prims.rets_after(ka, [r'^self\.ping_timeout_timepoint is Some$', r'^\(self\.ping_timeout_timepoint@Some\.0 <= context\.current_time\)$'])
+    ctx.ob(rd == {'Err'}, 'completeness: a reached ping deadline always fails the connection (%s)' % sorted(rd or []), 'deadline|complete', loc=ka.loc())
+
     # ------------------------------------------------------------ R-C14-3
     ctx.rule('R-C14-3', 'T2 + T1', 'a PINGREQ is queued at the front only when no ping is outstanding and the next-ping time has come; PINGRESP clears the deadline and is an error without an outstanding ping; '
              'the next ping is extended only to a later time, in the success completion point only')
